@@ -16,7 +16,7 @@ VARIABLES l, conn, cfg
 Trace == ndJsonDeserialize(TraceFile)
 MaxConn == 8
 Fresh == [c \in 0..(MaxConn - 1) |-> Idle]
-Cfg0 == [requirepass |-> FALSE, pw |-> <<>>, authdouble |-> FALSE, custom |-> {}, tracer |-> FALSE]
+Cfg0 == [requirepass |-> FALSE, pw |-> <<>>, authdouble |-> FALSE, custom |-> {}, tracer |-> FALSE, rec |-> TRUE]
 
 Init == l = 1 /\ conn = Fresh /\ cfg = Cfg0
 
@@ -25,7 +25,7 @@ Upd(c, n) == ~Bad(n) /\ conn' = [conn EXCEPT ![c] = n] /\ UNCHANGED cfg
 Handle(e) ==
   CASE e.ev = "scenario" ->
          /\ cfg' = [requirepass |-> e.requirepass, pw |-> e.pw, authdouble |-> e.authdouble,
-                    custom |-> IF e.customexec THEN {"MYCMD"} ELSE {}, tracer |-> e.tracer]
+                    custom |-> IF e.customexec THEN {"MYCMD"} ELSE {}, tracer |-> e.tracer, rec |-> e.handler = "rec"]
          /\ conn' = Fresh
     [] e.ev = "open"      -> ~conn[e.c].opened /\ conn' = [conn EXCEPT ![e.c] = NewConn(cfg.requirepass)] /\ UNCHANGED cfg
     [] e.ev = "reqs"      -> Upd(e.c, OnReqs(conn[e.c], e.reqs, e.ends))
